@@ -321,8 +321,13 @@ func genC08() {
 	}
 	// the work-group-count expression (uint32 arithmetic: GridSize is uint32, the wg size is converted)
 	e, _ = c10Assign(tr, ti, "wgCountX", 0)
-	o.def(ti, "timingWgCount", "initRegisters, work-group-count SGPR (computed in uint32)", e, "GridSizeX", "WorkgroupSizeX")
-	o.def(em, "emuWgCount", "initWfRegs, work-group-count SGPR (computed in uint32)", c10Call(ei, em, "binary.LittleEndian.PutUint32", 0)[1], "GridSizeX", "WorkgroupSizeX")
+	o.def(ti, "timingWgCount", "initRegisters, work-group-count SGPR (the conversions — the widths — are pinned by wgCountSources)", e, "GridSizeX", "WorkgroupSizeX")
+	emuCnt := c10Call(ei, em, "binary.LittleEndian.PutUint32", 0)[1]
+	o.def(em, "emuWgCount", "initWfRegs, work-group-count SGPR (the conversions — the widths — are pinned by wgCountSources)", emuCnt, "GridSizeX", "WorkgroupSizeX")
+	// the translated expressions are over Nat: the conversions, i.e. the widths the code computes in, are
+	// dropped. They are pinned as text instead (the hand-written model reads them: 64-bit ceiling
+	// division, truncated to uint32).
+	o.strs("wgCountSources", "the work-group-count expressions of initRegisters and initWfRegs as written, with their conversions", []string{nodeString(e), nodeString(emuCnt)})
 
 	// ---------------------------------------------------------------- hidden kernel arguments, dispatch packet
 	const hk = "amd/benchmarks/dnn/gputensor/cdna3_kernargs.go"
@@ -330,7 +335,8 @@ func genC08() {
 	o.layout("hiddenFields", hk+": CDNA3HiddenArgs, fields and byte sizes in declaration order", c08Struct(fhk, hk, "CDNA3HiddenArgs"))
 	nh := c10Func(fhk, hk, "", "newCDNA3HiddenArgs")
 	e, _ = c10Assign(nh, hk, "bc", 0)
-	o.def(hk, "hiddenBC", "newCDNA3HiddenArgs, block count (computed in uint32)", e, "g", "l")
+	o.def(hk, "hiddenBC", "newCDNA3HiddenArgs, block count (the conversions — the widths — are pinned by hiddenBCSource)", e, "g", "l")
+	o.strs("hiddenBCSource", "the block-count expression of newCDNA3HiddenArgs as written, with its conversions", []string{nodeString(e)})
 	e, _ = c10Assign(nh, hk, "rem", 0)
 	o.def(hk, "hiddenRem", "newCDNA3HiddenArgs, remainder", e, "g", "l")
 	const pk = "amd/kernels/hsakerneldispatchpacket.go"
